@@ -40,15 +40,16 @@ def gen_case(rng: random.Random, tier: str) -> dict:
     cfg["shuffle"] = None
     for nd, _d in fns:
         nd["_c13_cacheable"] = rng.random() < 0.7
+    bounded_raise = bool(faults) and rng.random() < 0.5  # raise-mode map over a worker pool (max_concurrency 2) with a failing item
     return {
         "graph": g,
         "inputs": inp,
         "faults": faults,
-        "error_handling": rng.choice(["raise", "continue"]),
+        "error_handling": "raise" if bounded_raise else rng.choice(["raise", "continue"]),
         "max_iterations": rng.choice([None, 5]) if g["seeds"] else None,
-        "async": cfg,
-        "top_map": rng.choice(ext) if (ext and not g["seeds"] and rng.random() < 0.25) else None,
-        "top_map_n": rng.randint(0, 3),  # 0: a map over an empty list (no item runs, no events)
+        "async": dict(cfg, max_concurrency=2) if bounded_raise else cfg,
+        "top_map": rng.choice(ext) if (ext and not g["seeds"] and rng.random() < (0.7 if bounded_raise else 0.25)) else None,
+        "top_map_n": rng.randint(3, 5) if bounded_raise else rng.randint(0, 3),  # 0: a map over an empty list (no item runs, no events)
         # cache-enabled runner (a fresh InMemoryCache per execution), cacheable nodes with synchronous bodies and DUPLICATE map items:
         # whether a duplicate is served from the cache must not depend on whether a processor suspends while it is notified
         "cache": rng.random() < 0.3,
@@ -174,10 +175,20 @@ def run_case(doc: dict) -> dict:
                 s = _summary(w)
                 if s != base:
                     what = "status_or_values_or_error" if s[:3] != base[:3] else "node_invocations"
-                    viol.append((f"{mode}:failing_processor_changed_{what}", {"point": point, "base": base[:3], "with": s[:3]}))
+                    det = {"point": point, "base": base[:3], "with": s[:3]}
+                    if what == "node_invocations":
+                        bi, wi = [tuple(x) for x in base[-1]], [tuple(x) for x in s[-1]]
+                        det["only_without_processors"] = sorted(set(bi) - set(wi))[:4] + ([["(multiset)"]] if not (set(bi) - set(wi)) and len(bi) > len(wi) else [])
+                        det["only_with_processors"] = sorted(set(wi) - set(bi))[:4]
+                        det["superset"] = all(bi.count(x) <= wi.count(x) for x in set(bi))
+                    viol.append((f"{mode}:failing_processor_changed_{what}", det))
                 if w["out"]["status"] in ("deadlock", "step_cap"):
                     viol.append((f"{mode}:run_did_not_terminate_with_failing_processor", {"point": point, "status": w["out"]["status"]}))
-                if mode == "sync":
+                known_shift = (mode == "async" and s[-1] != base[-1] and doc.get("top_map") and doc.get("error_handling") == "raise" and doc.get("faults")
+                               and (doc.get("async") or {}).get("max_concurrency") is not None)
+                if known_shift:
+                    pass  # (known finding: other items were started; the stream then describes another set of item runs)
+                elif mode == "sync":
                     if canon_events(good.events) != ref_seq:
                         viol.append((f"{mode}:healthy_processor_stream_incomplete_or_changed", {"point": point, "n_ref": n, "n_got": len(good.events)}))
                 else:
@@ -232,7 +243,13 @@ def shrink_candidates(doc: dict):
 
 
 def signature(doc: dict, cls: str, detail) -> str:
-    return cls.split(":", 1)[-1]
+    base = cls.split(":", 1)[-1]
+    if (base == "failing_processor_changed_node_invocations" and cls.startswith("async") and doc.get("top_map") and doc.get("error_handling") == "raise" and doc.get("faults")
+            and (doc.get("async") or {}).get("max_concurrency") is not None):
+        # raise-mode map over a worker pool: the stop flag is set only after the failing item's events were delivered; a processor that
+        # suspends meanwhile shifts which other items the workers start (more of them, or fewer) before the map stops
+        return "bounded_raise_mode_map_items_started_depend_on_processor_suspension"
+    return base
 
 
 def sample_repr(doc: dict, res: dict):
